@@ -191,8 +191,14 @@ func solveProcs(q *Query, name string, cfg SolverCfg) SolverAnswer {
 	for i, s := range order {
 		go func(i int, s string) {
 			if i > 0 && !cfg.All && !cfg.NoStagger {
+				delay := time.Duration(i) * 1500 * time.Millisecond
+				if len(cfg.Order) > 0 {
+					// an explicit order says which solver is expected to decide the goal: the others start only
+					// when it has used most of its time (they would only compete with it for the cores)
+					delay = time.Duration(i) * cfg.Timeout * 2 / 3
+				}
 				select {
-				case <-time.After(time.Duration(i) * 1500 * time.Millisecond):
+				case <-time.After(delay):
 				case <-ctx.Done():
 					ch <- res{s, "cancelled", "", 0}
 					return
